@@ -1,10 +1,11 @@
-//go:build verif
+//go:build verif && !nohook_c19
 
 // Exports for the /verif model-checking harness (injected with -overlay; never part of a
 // normal build). Thin wrappers only: no logic of their own.
 package hsmsss
 
-import "github.com/arloliu/go-secs/v2/hsms"
+// VerifC19Hook: the pure linktest functions below are bound to the library's.
+const VerifC19Hook = true
 
 // VerifLinktestFailureStep exposes the pure failure reducer of the auto-linktest (C19).
 func VerifLinktestFailureStep(suppress bool, recvNow, sentAt, inflight int64, fails int, recvAtLastFail int64) (newFails int, newRecvAtLastFail int64, credited bool) {
@@ -14,13 +15,4 @@ func VerifLinktestFailureStep(suppress bool, recvNow, sentAt, inflight int64, fa
 // VerifLinktestDisconnectRecheck exposes the pure pre-disconnect re-check decision (C19).
 func VerifLinktestDisconnectRecheck(suppress bool, inflight, recvNow, sentAt int64) bool {
 	return linktestDisconnectRecheck(suppress, inflight, recvNow, sentAt)
-}
-
-// VerifCore returns the shared hsms engine connection behind an hsmsss.Connection.
-func VerifCore(c Connection) hsms.Connection {
-	if cc, ok := c.(*connection); ok {
-		return cc.Connection
-	}
-
-	return nil
 }
